@@ -130,6 +130,7 @@ class U:
             else:
                 ns[name] = fr
         ns.update(extra or {})
+        ns["__module__"] = "extracted:" + relpath        # exceptions raised on these objects are the code's, not the model's
         cls = type(clsname, tuple(bases) or (object,), ns)
         for v in ns.values():
             fr = v.func if isinstance(v, functools.cached_property) else v.fget if isinstance(v, property) else \
@@ -453,7 +454,9 @@ def run_check(prop, tier="quick", level_note=None):
             if b.get("error"):
                 crashes.append(dict(unit=r["unit"], detail="bounded harness: " + b["error"] + "\n" + b.get("tb", "")))
             for fcase in b.get("failures", []):
-                kf = [k for k in known if k["match"] in (r["unit"] + "/bounded")]
+                # a known finding is identified by the specific failing input and clause, not by the unit alone
+                hay = r["unit"] + "/bounded " + json.dumps(fcase.get("input"), sort_keys=True, default=str) + " " + str(fcase.get("clause", ""))
+                kf = [k for k in known if k["match"] in hay]
                 if kf:
                     known_hit.append((kf[0], dict(name=r["unit"] + "/bounded", replay=fcase)))
                 else:
